@@ -98,8 +98,8 @@ fn run(t: &[&str]) -> String {
     let mut out: Vec<String> = Vec::new();
     out.push(format!(
         "I:{}#{}",
-        fingerprint(&sides[0].e.d),
-        fingerprint(&sides[1].e.d)
+        fingerprint(sides[0].e.drv()),
+        fingerprint(sides[1].e.drv())
     ));
     for tok in &t[1 + NCFG..] {
         let r = guarded(|| step(&mut sides, &mut hole, tok));
@@ -122,7 +122,7 @@ fn run(t: &[&str]) -> String {
                     "{}:{}#{}#{}",
                     if who == 0 { "a" } else { "b" },
                     body,
-                    fingerprint(&sides[1 - who].e.d),
+                    fingerprint(sides[1 - who].e.drv()),
                     tail
                 ));
             }
@@ -134,7 +134,7 @@ fn run(t: &[&str]) -> String {
 /// One op; returns (acting side, its observation token in the vsock format).
 fn step(sides: &mut [Side; 2], hole: &mut Option<usize>, tok: &str) -> (usize, String) {
     let b = tok.as_bytes();
-    let plain = |s: &Side| format!("-/-/{}", fingerprint(&s.e.d));
+    let plain = |s: &Side| format!("-/-/{}", fingerprint(s.e.drv()));
     match b[0] {
         b'T' => {
             sides[0].e.op(tok, false);
@@ -188,7 +188,7 @@ fn step(sides: &mut [Side; 2], hole: &mut Option<usize>, tok: &str) -> (usize, S
                         sides[to].e.deliver(msg);
                     }
                     let wakes = sides[to].e.wakes();
-                    (to, format!("-/{}/{}", wakes, fingerprint(&sides[to].e.d)))
+                    (to, format!("-/{}/{}", wakes, fingerprint(sides[to].e.drv())))
                 }
                 b'X' => {
                     sides[from].net.remove(k);
